@@ -19,11 +19,36 @@ class MachineError(Exception):
     pass
 
 
+class Cells:
+    """Lazily materialised array cells (large default capacities cost nothing)."""
+
+    __slots__ = ("n", "d")
+
+    def __init__(self, n):
+        self.n = n
+        self.d = {}
+
+    def __len__(self):
+        return self.n
+
+    def __getitem__(self, i):
+        return self.d.get(i)
+
+    def __setitem__(self, i, v):
+        self.d[i] = v
+
+    def __iter__(self):
+        return (self.d.get(i) for i in range(self.n))
+
+    def prefix(self, k):
+        return [self.d.get(i) for i in range(k)]
+
+
 class Block:
     __slots__ = ("cells", "live", "elem", "owner")
 
     def __init__(self, n, elem, owner="kernel"):
-        self.cells = [None] * n
+        self.cells = Cells(n)
         self.live = True
         self.elem = elem  # irt.Type of the elements
         self.owner = owner  # "kernel" (allocated by the running kernel) or "input"/"runtime"
@@ -164,8 +189,9 @@ def eval_rhs(st: State, e):
             return S.VErr()
         bid = st.new_block(v.n, v.elem)
         nb = st.blocks[bid]
-        for i in range(min(len(old.cells), v.n)):
-            nb.cells[i] = old.cells[i]
+        for i, x in old.cells.d.items():
+            if i < v.n:
+                nb.cells[i] = x
         old.live = False
         st.events.append(("realloc", v.block, bid, v.n))
         return S.VP(bid, 0)
@@ -242,6 +268,6 @@ def observable(st: State):
     """What an observer can see after a run: variables, live blocks, tensor fields."""
     return (
         dict(st.vars),
-        {k: (tuple(b.cells), b.live) for k, b in st.blocks.items()},
+        {k: (len(b.cells), tuple(sorted(b.cells.d.items(), key=lambda kv: kv[0])), b.live) for k, b in st.blocks.items()},
         {k: dict(t.fields) for k, t in st.tensors.items()},
     )
